@@ -37,7 +37,7 @@ ASSUMPTIONS = [
     "PQR; their failure is outside the statement",
 ]
 BOUND = {
-    "quick": "complete success grid (+ chains ending in waters/ions of the same chain id); alias spellings (33 input names x topology aliases, water naming pairs, old-style strand names); 10 argument classes; 11 input classes + 70 fractional-total classes (14 fractional parts x 5 integer parts); "
+    "quick": "complete success grid (+ chains ending in waters/ions of the same chain id); alias spellings (33 input names x topology aliases, water naming pairs, old-style strand names); crowded S3 cases (partner poses, ideal-slot pairs, torsion alphabet); 12 argument classes; 20 input classes (incl. refusals under --clean / --assign-only, waters not counting as structure) + 70 fractional-total classes (14 fractional parts x 5 integer parts); "
     "26 call sites x {1st, 2nd, last} x 4 exception types x 2 output states "
     "on one structure that reaches every site",
     "thorough": "faults additionally on a second structure (strand + ligand "
